@@ -108,7 +108,14 @@ pub async fn add_node(
     let mut added_service_data = vec![];
     let mut failed_service_data = vec![];
 
-    let current_node_count = node_registry.nodes.len() as u16;
+    // Number the new services after the highest number recorded so far. The registry can have
+    // gaps (a service that failed to install is not recorded), so its length is not a safe base.
+    let current_node_count = node_registry
+        .nodes
+        .iter()
+        .map(|node| node.number)
+        .max()
+        .unwrap_or(0);
     let target_node_count = current_node_count + options.count.unwrap_or(1);
 
     let mut node_number = current_node_count + 1;
